@@ -447,7 +447,14 @@ def handle (op : String) (args : List String) : Option String :=
       let le := after.all fun n' => before.any fun m =>
         n'.fqid == m.fqid && n'.callable == m.callable && n'.isPipe == m.isPipe && decide (n'.outputs = m.outputs)
           && decide (n'.retained = m.retained) && n'.inputs.all (fun kv => m.inputs.contains kv)
-      some s!"hyp={StructOK p} same={decide (lhs = rhs) && le} removed={plan.1.length}"
+      -- the loop as one equation about the original graph (remove_unused_calls_loop_graph_exact_partial)
+      let m := loopCount (measure p + 1) (ti, p)
+      let pairs := loopPairs m (ti, p)
+      let lhsL := deepGraphAt n n (ti.removeInputs pairs) (removeUnused true [] p)
+      let rhsL := pairs.foldl (fun g xq => g.map (remNodeIn xq.1 xq.2))
+        (deepGraphKeepAt (fun c i => loopKeep m (ti, p) c.name c.isPipe i) n n ti p)
+      let fix := (unusedCallPlan (removeUnused true [] p)).1.isEmpty
+      some s!"hyp={StructOK p} same={decide (lhs = rhs) && le && decide (lhsL = rhsL) && fix && decide (removeUnused true [] p = (callsIter m (ti, p)).2)} removed={plan.1.length} passes={m}"
     | "renameCallable" =>
       let hyp := WF p && FreshFor x b p && (p.find? x).isSome && RenCallOK x b ti (eraseIds p)
       some s!"hyp={hyp} same={decide (deepGraph (ti.renameCallable x b) (eraseIds (renameCallable x b p)) = (deepGraph ti (eraseIds p)).map (renNodeCallable x b))}"
@@ -463,6 +470,13 @@ def handle (op : String) (args : List String) : Option String :=
     | "removeInput" =>
       let pairs := removeInputClosure p (closureFuel p) [(x, a)] []
       some (showGraph (pairs.foldl (fun g xq => g.map (remNodeIn xq.1 xq.2)) (deepGraph ti p)))
+    | "removeCalls" =>
+      -- the right-hand side of remove_unused_calls_loop_graph_exact_partial: the original graph restricted
+      -- to the calls every pass keeps, minus the cascaded input keys
+      let n := graphFuel p
+      let m := loopCount (measure p + 1) (ti, p)
+      some (showGraph ((loopPairs m (ti, p)).foldl (fun g xq => g.map (remNodeIn xq.1 xq.2))
+        (deepGraphKeepAt (fun c i => loopKeep m (ti, p) c.name c.isPipe i) n n ti p)))
     | "removeOutput" =>
       -- removeOutputPlain: the parameter, then the cascade of the inputs it leaves unbound
       let pairs := match p.find? x with
